@@ -414,6 +414,24 @@ func genC02(tier string, rng *Rng) {
 			"Mem" + "A" + "=" + a(), "Shift=" + a(), "StateZ9=" + a(), "Flag#" + a() + "=" + a(),
 			"HWCg#" + a() + "=" + "0/" + a() + "," + a() + "x" + a() + "," + a() + "," + a() + ":QUFB"})
 	}
+	// line ORDER: the same component written twice (same or different kind of line) with a clearing
+	// command / another command / a register / another component / nothing in between
+	{
+		kinds := [][2]string{{"HWC#12=4", "HWC#12=3"}, {"HWCc#12=133", "HWCc#12=2"}, {"HWCx#12=4196", "HWCx#12=8292"},
+			{"HWCt#12=5|1||T1", "HWCt#12=|7||T2|1|L"}, {"HWCrawADCValues#12=1", "HWCrawADCValues#12=0"}, {"HWCg#12=0/0,8x1:qg==", "HWCg#12=0/0,8x1:VQ=="}}
+		betw := [][]string{{"Clear"}, {"ClearLEDs"}, {"ClearDisplays"}, {"list"}, {"MemA=5"}, {"HWC#99=2"}, {"ping"}, {}, {"Clear", "ClearLEDs"}, {"junk"}}
+		for i, a := range kinds {
+			for j, c := range kinds {
+				for _, b := range betw {
+					lines := append(append([]string{a[0]}, b...), c[1])
+					runC02("rewrite-order", lines)
+					if i == j {
+						runC02("rewrite-order", append(append(append([]string{a[0], a[1]}, b...), a[0]), "HWC#12,13=1"))
+					}
+				}
+			}
+		}
+	}
 	runC02("gfx-simple", []string{"HWCg#7=0:QUFB", "HWCg#7=1:Q0ND", "HWCg#7=2:RERE"})
 	runC02("gfx-simple", []string{"HWCg#7=0:QUFB", "HWCg#7=2:Q0ND", "HWCg#7=2:RERE"})
 	runC02("gfx-simple", []string{"HWCg#1=0/1,8x8:QUFB", "HWCg#1=1:Q0ND", "HWCg#1=2:RERE", "HWCg#1=1:Q0ND"})
